@@ -155,7 +155,7 @@ theorem commaList_spec {α} (item : P α) (Qp : α → Prop) (hi : T src Tr item
     ∀ fuel acc, (∀ a ∈ acc, Qp a) → T src Tr (commaList item fuel acc) (fun l _ => ∀ a ∈ l, Qp a) := by
   intro fuel
   induction fuel with
-  | zero => intro acc _; unfold commaList; exact T.throw _ rfl
+  | zero => intro acc _; unfold commaList; exact T.throw _ (fun _ _ => trivial)
   | succ n ih =>
     intro acc hacc
     unfold commaList
